@@ -38,6 +38,19 @@ CheckAbs(c) ==
     ELSE IF c.stream # Encode(Decode(c.stream)) THEN "rej:C10_Encoding"
     ELSE "ok"
 
+\* when address / mnemonic disagree the operand clauses are still decidable (the counts agree): they are reported
+\* as |also:<clause> so that each property's check sees its own clause
+AlsoOps(T, D) ==
+    IF \E n \in DOMAIN T : Len(D[n].ops) # Len(T[n].ops)
+    THEN "|also:C10_CommaInsideField"
+         \o (IF \E n \in DOMAIN T : (\A k \in DOMAIN T[n].ops : NormOfText(T[n].ops[k]).ok) /\ Len(D[n].ops) # Len(T[n].ops)
+             THEN "|also:C09_OperandCount" ELSE "")
+    ELSE IF \E n \in DOMAIN T :
+              /\ \A k \in DOMAIN T[n].ops : NormOfText(T[n].ops[k]).ok
+              /\ \E k \in DOMAIN T[n].ops : D[n].ops[k] # NormOfText(T[n].ops[k]).v
+         THEN "|also:C09_NormalForm"
+    ELSE ""
+
 CheckText(c) ==
     IF c.outcome # "ok" THEN "rej:C08_ParserFailed"
     ELSE LET T == TextInsns(c.lines) IN
@@ -47,7 +60,7 @@ CheckText(c) ==
     ELSE LET D == Decode(c.stream) IN
     IF \E n \in DOMAIN T : ~FieldOK(T[n].mn) THEN "rej:C10_SeparatorInMnemonic"
     ELSE IF Len(D) # Len(T) THEN "rej:C08_Count"
-    ELSE IF \E n \in DOMAIN T : D[n].addr # T[n].addr \/ ~MnAgrees(T[n].mn, D[n].mn) THEN "rej:C08_AddrMnemonic"
+    ELSE IF \E n \in DOMAIN T : D[n].addr # T[n].addr \/ ~MnAgrees(T[n].mn, D[n].mn) THEN "rej:C08_AddrMnemonic" \o AlsoOps(T, D)
     ELSE IF ~ListOK(D) \/ Encode(D) # c.stream THEN "rej:C10_FieldSeparator"
     \* a comma that is not a separator would show up as an extra operand field: the line's operand
     \* text, split at the commas outside parentheses, says how many operands there are
